@@ -55,6 +55,7 @@ Theorem C14_oracle_sound : forall njobs tr vals table fc late, ok_C14 njobs tr v
     cur s = Some c /\ terminal c = true /\ lookup_row j table = [(c, ro)] /\
     (straddles j tr = true -> told_before_s2 j tr = true) /\
     (In CANCELLING (ws_of (proj j tr)) -> c = CANCELLED) /\
+    born_after_s2 j tr = false /\
     (returned s = true -> lookup_val j vals = Some ro).
 Proof. exact ok_C14_sound. Qed.
 Print Assumptions C14_oracle_sound.
